@@ -604,6 +604,8 @@ class SignHandler(Handler):
                 else:
                     self.right.insert(0, v)
                 return
+        if isinstance(node, ast.Return) and (node.value is None or (isinstance(node.value, ast.Constant) and node.value.value is None)):
+            return          # early exit of the handler: the cell is complete
         raise Unrecognised(f"statement {norm(node)}")
 
 
